@@ -251,6 +251,7 @@ partial def toIR : Sexp → Except String IR
     | some t, _, [a] => pure (.cast (← toIR a) t)
     | none, "indexArray", [a, i] => pure (.arrayRef (← toIR a) (← toIR i))
     | none, "index", [d, k] => pure (.dictGet (← toIR d) (← toIR k))
+    | none, "dict", [a] => pure (.toDict (.toStream (← toIR a)))                          -- `hl.dict(array of pairs)`
     | none, "land", [a, b] => pure (.ite (← toIR a) (← toIR b) (.bool false))            -- `a & b` on booleans
     | none, "lor", [a, b] => pure (.ite (← toIR a) (.bool true) (← toIR b))
     | _, _, _ => throw s!"Apply {fn}"
